@@ -1,4 +1,5 @@
 import Dbg.Lemmas.Assemble
+import Dbg.Lemmas.FilterSym
 /-! # C01 — Compressed graph is a lossless partition of the input k-mer set
 
 Theorems about the model `Compress.compressKmersC` of `compress_kmers_with_hash` (the table is listed in the hash map's
@@ -64,6 +65,30 @@ theorem C01_nodes_are_id_paths {T : Table D} {K : Nat} {st : Bool} {join : D →
   obtain ⟨out, h1, h2, h3⟩ := compressLoopC_spec (join := join) reduce wf hes (List.range T.length) (List.range T.length)
     (fun i hi => List.mem_range.mp hi)
   exact ⟨out, h1, h2, fun x hx => (h3 x hx).1⟩
+
+/-- **C01 (from reads).** For every read set (empty boundary extensions), every K ≥ 4, both summarizers, every
+    memory budget, stranded or not, and whatever order the hash map lists the table in: filtering, pruning and
+    compressing never panics, and the canonical k-mers of the node sequences are a permutation of the k-mers the
+    filter accepted — each in exactly one node at exactly one offset, nothing foreign. -/
+theorem C01_from_reads (K : Nat) (hK : 4 ≤ K) (reads : List (Seq × Exts × Nat)) (hb : Filter.NoBoundary reads)
+    (sm : Filter.Summarizer) (st ra : Bool) (mem bpu sz : Nat) (hm : 1 ≤ mem) (hbp : 1 ≤ bpu)
+    (join : Filter.Payload → Filter.Payload → Bool) (hj : ∀ a b, join a b = join b a) (reduce : Filter.Payload → Filter.Payload → Filter.Payload)
+    (T : List (Entry Filter.Payload)) :
+    ∃ r, Filter.filterKmers K reads sm st ra mem bpu sz = some r ∧
+      (T.Perm (Filter.removeCensoredExts st r.table) →
+        ∃ out, compressKmersC T st join reduce = some out ∧
+          (out.flatMap fun x => (windowsOf K x.1.seq).map (fun w => (canonOf st w).1)).Perm (r.table.map (·.key)) ∧
+          ∀ x ∈ out, K ≤ x.1.seq.length) := by
+  obtain ⟨r, e, ht, _⟩ := Filter.filterKmers_eq_ref K reads sm st ra mem bpu sz hK hm hbp
+  refine ⟨r, e, fun hp => ?_⟩
+  rw [ht] at hp ⊢
+  obtain ⟨wf, hes⟩ := Filter.pipeline_table_ok K (by omega) reads hb sm st T hp
+  obtain ⟨out, h1, h2, h3⟩ := compressKmersC_partition reduce wf hes hj
+  refine ⟨out, h1, h2.trans ?_, h3⟩
+  have : (Filter.removeCensoredExts st (Filter.refTable K reads sm st)).map (·.key) = (Filter.refTable K reads sm st).map (·.key) := by
+    unfold Filter.removeCensoredExts; simp [List.map_map, Function.comp_def]
+  rw [← this]
+  exact hp.map _
 
 /-- the hypotheses are satisfiable: a three-k-mer chain ACG → CGT (palindrome-free, stranded) -/
 example : partitionOK 3 true ([⟨[0,1,2], ⟨0x80⟩, 1⟩, ⟨[1,2,3], ⟨0x01⟩, 1⟩] : Table Nat)
